@@ -180,6 +180,29 @@ func (multi *MultiEpoch) handleGetSignaturesForAddress(ctx context.Context, conn
 		}, fmt.Errorf("failed to get signatures: %w", err)
 	}
 
+	// The address index only keeps a short hash of each address: an address without history can
+	// resolve to the list of another address. Such a list never mentions the requested address,
+	// so checking its newest transaction is enough to recognise and drop it.
+	for epochNum, txs := range foundTransactions {
+		if len(txs) == 0 {
+			continue
+		}
+		ser, err := multi.GetEpoch(epochNum)
+		if err != nil {
+			continue
+		}
+		tx, meta, err := parseTransactionAndMetaFromNode(txs[0], ser.GetDataFrameByCid)
+		if err != nil {
+			continue // cannot verify: keep the previous behaviour
+		}
+		if len(tx.Message.AddressTableLookups) > 0 && meta == nil {
+			continue // loaded addresses unknown: cannot verify
+		}
+		if !transactionHasAccount(&tx, meta, pk) {
+			delete(foundTransactions, epochNum)
+		}
+	}
+
 	if len(foundTransactions) == 0 {
 		err = conn.ReplyRaw(
 			ctx,
